@@ -18,7 +18,7 @@ Step1(e) == CASE e.a = "Accept" -> Accept(e.kind) [] e.a = "Ready" -> Ready(e.k)
 TMatch == /\ l < Len(Tr) /\ Tr[l+1].act.a # "init" /\ Tr[l+1].skip = ""
          /\ Step1(Tr[l+1].act) /\ Same(l+1) /\ l' = l + 1 /\ UNCHANGED rej
 TStart(i) == /\ ep' = 1 /\ acc' = FALSE /\ hs' = FALSE /\ nextId' = 1 /\ calls' = [k \in Slots |-> Idle] /\ sent' = [k \in Slots |-> FALSE]
-             /\ order' = <<>> /\ queue' = <<>> /\ stale' = <<>> /\ srv' = <<>> /\ deliv' = <<>> /\ run' = "running" /\ steps' = 0 /\ act' = A("init", 0, "", 0) /\ l' = i
+             /\ order' = <<>> /\ queue' = <<>> /\ stale' = <<>> /\ srv' = <<>> /\ deliv' = <<>> /\ run' = "running" /\ steps' = 0 /\ had' = FALSE /\ act' = A("init", 0, "", 0) /\ l' = i
 Begin == l < Len(Tr) /\ Tr[l+1].act.a = "init" /\ TStart(l+1) /\ UNCHANGED rej
 NextInit(i) == IF \E j \in i..Len(Tr) : Tr[j].act.a = "init"
                THEN CHOOSE j \in i..Len(Tr) : Tr[j].act.a = "init" /\ \A k \in i..(j-1) : Tr[k].act.a # "init" ELSE 0
